@@ -95,37 +95,45 @@ def directed(names):
     return behs
 
 
-def replay(harness, behs, shards=8):
-    """step 2c: execute the behaviours against the real code; returns per-shard (behaviours, reports, trace lines)"""
+def replay(harness, behs, shards=8, chunk=300):
+    """step 2c: execute the behaviours against the real code; returns per-chunk (behaviours, reports, trace lines).
+    At most `chunk` behaviours per harness process (killed incarnations leave goroutines behind), `shards` at a time."""
+    import shutil
     tmp = tempfile.mkdtemp(prefix='pikereplay.')
-    shards = max(1, min(shards, len(behs) // 20 + 1))
-    parts = [behs[i::shards] for i in range(shards)]
-    procs = []
-    for i, part in enumerate(parts):
-        inp = os.path.join(tmp, 'in%d.json' % i)
-        json.dump(part, open(inp, 'w'))
-        p = subprocess.Popen([harness, 'replay', '-in', inp, '-out', os.path.join(tmp, 'trace%d.ndjson' % i),
-                              '-report', os.path.join(tmp, 'report%d.json' % i)],
-                             # one P: the controlled scheduler serialises the procs anyway, and per-P caches (sync.Pool)
-                             # then behave deterministically, so that aliasing of pooled buffers shows
-                             env=dict(os.environ, GOMAXPROCS='1'),
-                             stdout=subprocess.PIPE, stderr=subprocess.STDOUT, text=True)
-        procs.append(p)
+    nparts = max(1, (len(behs) + chunk - 1) // chunk)
+    nparts = max(nparts, min(shards, len(behs) // 20 + 1))
+    parts = [behs[i::nparts] for i in range(nparts)]
     outs = []
     try:
-        for i, p in enumerate(procs):
-            try:
-                o, _ = p.communicate(timeout=3000)
-            except subprocess.TimeoutExpired:
-                p.kill()
-                raise Infra('replay shard %d timed out' % i)
-            if p.returncode != 0:
-                raise Infra('replay shard %d failed (exit %d):\n%s' % (i, p.returncode, o[-3000:]))
-            reports = json.load(open(os.path.join(tmp, 'report%d.json' % i)))
-            lines = open(os.path.join(tmp, 'trace%d.ndjson' % i)).read().splitlines()
-            outs.append((parts[i], reports, lines))
+        for base in range(0, nparts, shards):
+            procs = []
+            for i in range(base, min(base + shards, nparts)):
+                inp = os.path.join(tmp, 'in%d.json' % i)
+                json.dump(parts[i], open(inp, 'w'))
+                p = subprocess.Popen([harness, 'replay', '-in', inp, '-out', os.path.join(tmp, 'trace%d.ndjson' % i),
+                                      '-report', os.path.join(tmp, 'report%d.json' % i)],
+                                     # one P: the controlled scheduler serialises the procs anyway, and per-P caches (sync.Pool)
+                                     # then behave deterministically, so that aliasing of pooled buffers shows
+                                     env=dict(os.environ, GOMAXPROCS='1'),
+                                     stdout=subprocess.PIPE, stderr=subprocess.STDOUT, text=True)
+                procs.append((i, p))
+            for i, p in procs:
+                try:
+                    o, _ = p.communicate(timeout=3000)
+                except subprocess.TimeoutExpired:
+                    p.kill()
+                    raise Infra('replay shard %d timed out' % i)
+                if p.returncode != 0:
+                    raise Infra('replay shard %d failed (exit %d):\n%s' % (i, p.returncode, o[-3000:]))
+                reports = json.load(open(os.path.join(tmp, 'report%d.json' % i)))
+                lines = open(os.path.join(tmp, 'trace%d.ndjson' % i)).read().splitlines()
+                outs.append((parts[i], reports, lines))
+                for f in ('in%d.json', 'trace%d.ndjson', 'report%d.json'):
+                    try:
+                        os.unlink(os.path.join(tmp, f % i))
+                    except OSError:
+                        pass
     finally:
-        import shutil
         shutil.rmtree(tmp, ignore_errors=True)
     return outs
 
